@@ -12,6 +12,7 @@ structure S where
   st : St := St.empty
   prof : Option ProfLim := none
   protos : Bool := true
+  al : Allowlist := { persistent := [], dynamic := [] }
 
 def showV : Verdict → String
   | .drop => "drop" | .allowlisted => "allow" | .pass => "pass"
@@ -35,9 +36,21 @@ def step (s : S) : List String → S × String
                        est := nat! est, v4count := nat! c4, v4ivl := int! i4, v4len := nat! l4,
                        v6count := nat! c6, v6ivl := int! i6, v6len := nat! l6,
                        refuseAny := bool! any, allow := [] },
-              st := St.empty, prof := none }, "ok")
+              st := St.empty, prof := none, al := { persistent := [], dynamic := [] } }, "ok")
   | "allow" :: rest =>
-    ({ s with cfg := { s.cfg with allow := s.cfg.allow ++ parsePrefixes rest } }, "ok")
+    let al := { s.al with persistent := s.al.persistent ++ parsePrefixes rest }
+    ({ s with al := al, cfg := { s.cfg with allow := al.flat } }, "ok")
+  | "dyn" :: rest =>
+    -- `DynamicAllowlist.Update`: the limiter state is untouched.
+    let al := s.al.update (parsePrefixes rest)
+    ({ s with al := al, cfg := { s.cfg with allow := al.flat } }, "ok")
+  | ["isallowed", is4, val] =>
+    (s, showB (s.al.isAllowed { is4 := bool! is4, val := nat! val }))
+  | ["libmw", enabled, port0, now, is4, val, qt, len] =>
+    let respLen := if len == "-" then none else some (nat! len)
+    let (g, e) := serveLib s.cfg (bool! enabled) (bool! port0) s.st (int! now) 2
+      { is4 := bool! is4, val := nat! val } (nat! qt) respLen
+    ({ s with st := g }, showE e)
   | ["req", now, is4, val, qt] =>
     let (st', v) := isRateLimited s.cfg s.st (int! now) { is4 := bool! is4, val := nat! val } (nat! qt)
     ({ s with st := st' }, showV v)
